@@ -1,5 +1,5 @@
 #!/usr/bin/env python3
-"""C14 -- the tokenizer is total, makes progress and is buffer-size independent (DESIGN.md 3.C14)."""
+"""C14 -- the tokenizer is total, makes progress and is buffer-size independent (DESIGN.md section 4, C14)."""
 import io
 import itertools
 import os
@@ -42,7 +42,7 @@ MANIFEST_ENTRY = {
     "note": "Trusted: Coq kernel, regex-class translator (cross-checked against re on all 256 bytes), hand model of the "
             "_parse_* methods (correspondence only), harness. Python int()/float()/isdigit/isalpha modelled. The fixes "
             "acdb90e (octal overflow) and 8dbab63 (backslash-CR at buffer end) were needed for the theorems to hold.",
-    "design_ref": "DESIGN.md 3.C14",
+    "design_ref": "DESIGN.md section 4, C14",
 }
 
 ALPHABET = [0x20, 0x00, 0x0b, 0x0a, 0x0d, 0x25, 0x2f, 0x23, 0x28, 0x29, 0x5c, 0x3c, 0x3e, 0x5b, 0x7b,
